@@ -8,8 +8,9 @@ Open Scope N_scope.
 Record pos := mkpos { p_line : N; p_col : N }.
 
 (* numeric payload: has_sign, int_value, f32 bit pattern (of `value`, or of `unit_value` for
-   percentages) *)
-Record cnum := mknum { n_sign : bool; n_int : option Z; n_bits : N }.
+   percentages); `n_src` is a ghost: the source spelling of the numeric part for tokens read
+   from the input, empty for synthesised tokens.  No model function inspects it. *)
+Record cnum := mknum { n_sign : bool; n_int : option Z; n_bits : N; n_src : str }.
 
 Inductive tok :=
 | TIdent (s : str) | TAt (s : str) | THash (s : str) | TIdHash (s : str)
@@ -23,17 +24,18 @@ Inductive tok :=
 | TCloseParen | TCloseSquare | TCloseCurly.
 
 (* Input tree. A block node carries: opening token (TFunc/TParen/TSquare/TCurly), position of
-   the opening token, the nodes of the body, and the position at which the body ends (the
-   closing bracket, or the end of the input when unclosed). *)
+   the opening token, the nodes of the body, the position at which the body ends (the closing
+   bracket, or the end of the input when unclosed) and whether a closing bracket was present
+   (ghost: used only by the well-formedness predicate of the specification). *)
 Inductive node :=
 | Leaf (t : tok) (p : pos)
-| Block (open : tok) (p : pos) (body : list node) (endp : pos).
+| Block (open : tok) (p : pos) (body : list node) (endp : pos) (closed : bool).
 
 Definition node_pos (n : node) : pos :=
-  match n with Leaf _ p => p | Block _ p _ _ => p end.
+  match n with Leaf _ p => p | Block _ p _ _ _ => p end.
 
 Definition node_tok (n : node) : tok :=
-  match n with Leaf t _ => t | Block t _ _ _ => t end.
+  match n with Leaf t _ => t | Block t _ _ _ _ => t end.
 
 Definition close_of (open : tok) : tok :=
   match open with
